@@ -409,3 +409,57 @@ def witness_header_case():
     r = bounded_agreement("quick", 0)
     cases = [f["inputs"]["scenario"] for f in r["failures"] if f["inputs"]["scenario"].endswith("caller-headers-win")]
     return dict(inputs={"scenario": "caller-headers-win"}, failed=cases, cases=cases, outcome={}, error=None)
+
+
+def bounded_constructors(tier, seed):
+    """what the constructor of each bundled client stores is what it was given - nothing is derived from another option
+    (HTTP headers are not websocket headers, a supplied http client is used as it is) - and the plain and the OpenTelemetry
+    client of the same kind agree"""
+    import httpx
+    cases, fails = 0, []
+    given_sets = []
+    for headers in (None, {"Authorization": "Bearer h"}):
+        for supply in (False, True):
+            for ws in ({}, dict(ws_url="ws://x/graphql"), dict(ws_url="ws://x/graphql", ws_headers={"X-Ws": "1"}, ws_origin="https://o.example",
+                                                              ws_connection_init_payload={"token": "t"}),
+                       dict(ws_headers={}, ws_origin=None, ws_connection_init_payload={})):
+                given_sets.append((headers, supply, ws))
+    for headers, supply, ws in given_sets:
+        described = {}
+        for m, k in CLIENTS:
+            cls = getattr(importlib.import_module(DEP + m), k)
+            is_async = "Async" in k
+            if not is_async and ws:
+                continue
+            cases += 1
+            supplied = (httpx.AsyncClient() if is_async else httpx.Client()) if supply else None
+            before = dict(supplied.headers) if supplied is not None else None
+            kw = dict(url="http://x/graphql", headers=headers, http_client=supplied, **(ws if is_async else {}))
+            bad = []
+            try:
+                c = cls(**kw)
+                if c.url != "http://x/graphql" or c.headers != headers:
+                    bad.append(f"url-and-headers-stored-as-given: {c.url!r} {c.headers!r}")
+                if supply and (c.http_client is not supplied or dict(supplied.headers) != before):
+                    bad.append("a-supplied-http-client-is-used-as-it-is")
+                if not supply and {k2: v for k2, v in c.http_client.headers.items() if k2 in ("authorization",)} != {k2.lower(): v for k2, v in (headers or {}).items()}:
+                    bad.append(f"the-client's-own-http-client-carries-the-configured-headers: {dict(c.http_client.headers)}")
+                if is_async:
+                    want = dict(ws_url=ws.get("ws_url", ""), ws_headers=ws.get("ws_headers") or {}, ws_origin=ws.get("ws_origin"),
+                                ws_connection_init_payload=ws.get("ws_connection_init_payload"))
+                    got = dict(ws_url=c.ws_url, ws_headers=c.ws_headers, ws_origin=(str(c.ws_origin) if c.ws_origin else None),
+                               ws_connection_init_payload=c.ws_connection_init_payload)
+                    if got != want:
+                        bad.append(f"websocket-options-stored-as-given: {got} != {want}")
+                described[k] = (c.url, c.headers, getattr(c, "ws_headers", None), str(getattr(c, "ws_origin", None)), getattr(c, "ws_connection_init_payload", None))
+            except Exception as e:      # noqa
+                bad.append(f"raises-{type(e).__name__}: {str(e)[:120]}")
+            if bad:
+                fails.append(dict(inputs=dict(scenario=f"{k}: headers={headers is not None} http_client={supply} ws={sorted(ws)}"), failed=bad, outcome=None))
+        for a, b in (("BaseClient", "BaseClientOpenTelemetry"), ("AsyncBaseClient", "AsyncBaseClientOpenTelemetry")):
+            if a in described and b in described and described[a] != described[b]:
+                fails.append(dict(inputs=dict(scenario=f"{a} vs {b}: headers={headers is not None} http_client={supply} ws={sorted(ws)}"),
+                                  failed=["plain-and-opentelemetry-client-store-the-same"], outcome={a: str(described[a]), b: str(described[b])}))
+    return dict(function=f"{DEP}async_base_client:AsyncBaseClient.__init__", name="bounded.constructors",
+                kind="bounded stand-in (native)", domain="4 clients x headers given/not x http client supplied/not x 4 websocket option sets",
+                cases=cases, failed=len(fails), failures=fails)
